@@ -5,7 +5,8 @@ usage: gen.py SEED NCASES [kinds]      (kinds: any of t b z, default "tbz")
 
 Only generates lines both sides support (see PROTOCOL.md and the harness' design notes):
   * kind b: no faults, no `*_mut` operations (the model does not wrap bytes), eq/cmp only with M == N
-  * kind z: capacity-proportional operations only for small N
+  * kind z: capacity-proportional operations only for small N; no `*_mut`, no extend_from_slice and
+    only zero values for the "other" buffers / slices (the model attaches values to them)
   * at most one fault per line (two could abort the process through a double panic)
 """
 import random
@@ -64,13 +65,18 @@ def script(rnd, alphabet):
     return "".join(rnd.choice(alphabet) for _ in range(ln))
 
 
+ZERO_VALS = False
+
+
 def vals(rnd, n, lo=0):
     small = min(n, 12)
     cnt = rnd.randint(lo, small + 2)
-    return [str(rnd.randint(0, 9)) for _ in range(cnt)]
+    return [("0" if ZERO_VALS else str(rnd.randint(0, 9))) for _ in range(cnt)]
 
 
 def gen_case(rnd, out, n, kind):
+    global ZERO_VALS
+    ZERO_VALS = kind == "z"   # the model keeps the values of silent source elements of kind z
     small = min(n, 70)
     huge = n > 4096
     nops = rnd.randint(3, 40)
@@ -84,8 +90,18 @@ def gen_case(rnd, out, n, kind):
         line = gen_op(rnd, n, kind, small, huge)
         if line is None:
             continue
-        if kind != "b" and rnd.random() < 0.2:
+        # DISCREPANCIES.md #1: after a panicking from_iter / into_iter the model keeps the `start` of the
+        # consumed buffer; only generate such faults where `start` is 0 anyway
+        risky = line.startswith(("from_iter", "into_iter")) and n > 1
+        if kind != "b" and not risky and rnd.random() < 0.2:
             f = rnd.choice(["drop", "drop", "clone", "call", "next", "eq"])
+            # half of the time pick a fault that the operation can actually reach
+            name = line.split(" ")[0]
+            rel = {"fill": "clone", "fill_spare": "clone", "extend_from_slice": "clone", "clone": "clone",
+                   "clone_from": "clone", "to_vec": "clone", "fill_with": "call", "fill_spare_with": "call",
+                   "extend": "next", "from_iter": "next", "eq": "eq", "eq_slice": "eq"}.get(name)
+            if rel and rnd.random() < 0.6:
+                f = rel
             line += f" !{f}={rnd.randint(1, 4)}"
         out.append(line)
 
@@ -105,8 +121,12 @@ def gen_op(rnd, n, kind, small, huge):
     op = rnd.choice(ops)
     if op == "rot":
         return None
-    if kind == "b" and (op.endswith("_mut") or op == "as_mut_slices"):
-        return None
+    if kind in "bz" and (op.endswith("_mut") or op == "as_mut_slices"):
+        return None   # the model adds 1000 to a Nat: bytes do not wrap, zero-sized elements get a value
+    if kind == "b" and op in ("to_vec", "boxed"):
+        return None   # DISCREPANCIES.md #2: the model reports no allocations for kind b
+    if kind == "z" and op == "extend_from_slice":
+        return None   # the model gives the source elements of kind z the values 70, 71, …
     if kind != "b" and op in ("write", "read", "fill_buf", "consume", "flush"):
         return None
     if huge and op in ("fill", "fill_spare", "fill_with", "fill_spare_with"):
